@@ -402,6 +402,11 @@ fn gen_case(seed: u64, idx: u64) -> Case {
     let fuel = 40;
     let coq = format!("(KSsa {} {} {} {})", f_coq, obs_coq, coq_list(inits), fuel);
 
+    // tags come from the edges actually built (a fan over a 1-bit scalar degrades to two edges)
+    let sk: Vec<Vec<usize>> = {
+        let g = f.control_flow_graph();
+        (0..sk.len()).map(|h| g.edges_out(h).map(|es| es.iter().map(|e| e.tail()).collect()).unwrap_or_default()).collect()
+    };
     let reach = reachable(&sk);
     let mut preds: BTreeMap<usize, usize> = BTreeMap::new();
     for ts in &sk {
@@ -430,7 +435,9 @@ fn gen_case(seed: u64, idx: u64) -> Case {
     let mut div = String::new();
     if let Obs::Ok(g) = &obs {
         for (k, st) in rstates.iter().enumerate() {
-            let (ta, tb) = (run(&f, st, fuel), run(g, st, fuel));
+            // the interpreter calls falcon's expression evaluator: keep its panics out of the harness
+            let ta = observe_plain(|| run(&f, st, fuel)).unwrap_or_else(|| vec!["interpreter panicked".into()]);
+            let tb = observe_plain(|| run(g, st, fuel)).unwrap_or_else(|| vec!["interpreter panicked".into()]);
             if let Some(i) = first_divergence(&ta, &tb) {
                 let lo = i.saturating_sub(2);
                 div = format!(" || DIVERGES from init #{} ({}) at event {}: original ..{} | ssa ..{}", k, init_descr[k], i,
